@@ -17,6 +17,7 @@ const (
 // okOf: success edges of the call(s) of `name` in fn whose rendering contains all of `subs`.
 func okOf(fn *ssa.Function, R *Renderer, name string, subs ...string) Need {
 	var fs []func(*ssa.BasicBlock, int) bool
+	var used []ssa.Instruction
 	n := 0
 	for _, call := range CallsToW(fn, name) {
 		s := renderVia(R, call, name)
@@ -29,6 +30,7 @@ func okOf(fn *ssa.Function, R *Renderer, name string, subs ...string) Need {
 		if match {
 			n++
 			fs = append(fs, successEdgesOfCall(fn, call))
+			used = append(used, call)
 		}
 	}
 	d := "success of " + name
@@ -38,7 +40,7 @@ func okOf(fn *ssa.Function, R *Renderer, name string, subs ...string) Need {
 	if n == 0 {
 		return Need{Desc: d + " [call not found]", Edge: func(*ssa.BasicBlock, int) bool { return false }}
 	}
-	return Need{Desc: d, Edge: orEdges(fs...)}
+	return Need{Desc: d, Edge: orEdges(fs...), SuccessOf: used}
 }
 
 func callsMatching(fn *ssa.Function, R *Renderer, name string, subs ...string) []ssa.Instruction {
@@ -106,7 +108,7 @@ func ruleC07Sync(c *Ctx) {
 		c.Guard(rule, fn, CallsTo(fn, fTask+"syncFiles"), "syncFiles", nil, okOf(fn, R, fCC+"PrepareRebuild"), okOf(fn, R, fTask+"isRevisionCountAndChainSame"))
 		rv := CallsTo(fn, fTask+"reloadAndVerify")
 		c.Guard(rule, fn, rv, "reloadAndVerify", nil,
-			Need{Desc: "chains already equal or files synced", Atoms: []string{fTask + "isRevisionCountAndChainSame($0,(*sync.Task).getTransferClients($0,$1)#0,(*sync.Task).getTransferClients($0,$1)#1)#0"}, Edge: okOf(fn, R, fTask+"syncFiles").Edge})
+			Need{Desc: "chains already equal or files synced", Atoms: sameVerdictAtoms(fn, R), Edge: okOf(fn, R, fTask+"syncFiles").Edge})
 		// the WO path returns nil only after reloadAndVerify succeeded; the start path only after Start succeeded
 		c.Guard(rule, fn, nilErrorReturns(fn), "return nil", nil,
 			Need{Desc: "volume started or rebuild verified", Edge: orEdges(okOf(fn, R, fCC+"Start").Edge, okOf(fn, R, fTask+"reloadAndVerify").Edge)})
@@ -651,4 +653,21 @@ func ruleC07Copy(rule string) ruleFn {
 		}
 		c.Floor(rule, 3)
 	}
+}
+
+// sameVerdictAtoms: the atoms "isRevisionCountAndChainSame(from, to) answered true" for the calls
+// in fn that hand it the two transfer clients in that order (with or without a receiver).
+func sameVerdictAtoms(fn *ssa.Function, R *Renderer) []string {
+	var out []string
+	for _, call := range CallsTo(fn, fTask+"isRevisionCountAndChainSame") {
+		s := callRender(R, call)
+		if strings.HasSuffix(s, "((*sync.Task).getTransferClients($0,$1)#0,(*sync.Task).getTransferClients($0,$1)#1)") ||
+			strings.HasSuffix(s, "($0,(*sync.Task).getTransferClients($0,$1)#0,(*sync.Task).getTransferClients($0,$1)#1)") {
+			out = append(out, s+"#0")
+		}
+	}
+	if len(out) == 0 {
+		out = []string{fTask + "isRevisionCountAndChainSame(<from>,<to>)#0 [call not found]"}
+	}
+	return out
 }
